@@ -436,6 +436,8 @@ func ruleStartupWrites(c *Ctx, r *Report, rule string) {
 			key := fmt.Sprintf("%s %s %s", fname(st.Fn), st.Verb, st.Table)
 			cons := fmt.Sprintf("%s %s", key, ord(ordn.next(key)))
 			switch {
+			case st.Verb == "DROP" && cat.Tables[st.Table] != nil:
+				r.viol(rule, cons, c.ipos(st.Site), "start-up executes `"+oneLine(st.Text)+"`: "+st.Table+" is a table of the schema, its rows are discarded by a restart, so what block processing computes from them afterwards depends on where the daemon was restarted")
 			case st.Verb == "CREATE" || st.Verb == "CREATE-INDEX" || st.Verb == "ALTER" || st.Verb == "DROP":
 				r.okNT(rule, cons, c.ipos(st.Site), "schema object")
 			case st.Table == "pn_sync_version" && st.Verb == "INSERT":
